@@ -1,13 +1,15 @@
 import SwcVerif.Refine.Asc
 import SwcVerif.Refine.AscParse
 import SwcVerif.Refine.AscTop
+import SwcVerif.Refine.AscFuel
 import SwcVerif.Model.AlgoRunAsc
 /-! # C15, tied to the source by the translator
 
 `Gen/AlgoAsc.lean` is regenerated on every run from `swcgeom/transforms/neurolucida_asc.py`: the token-level `Parser` (`_parse`,
 `_parse_tree`, `_parse_subtree` ↔ `_parse_split`, `_parse_node`, `_parse_color`, `_parse_comment`, `_skip_comments`, `_read_token`,
 `_consume`, `_assert`, `_assert_and_cunsume`), `ASTNode.add_child` and `NeurolucidaAscToSwc.from_ast` with its `walk_ast` loop.  The
-AST is a heap of node records, node references are indices.  The theorems below are about these GENERATED definitions. -/
+AST is a heap of node records, node references are indices.  The theorems below are about these GENERATED definitions; the main one is
+`generated_convert_eq_model`: generated parser ∘ generated walk = the hand-written model `Asc.convertTokens`, for every token list. -/
 namespace C15
 open Gen.Algo Py RefineAsc
 
@@ -31,19 +33,14 @@ theorem generated_rows_ids (nodes : List ASTNode) (t : AT) (ty : Int) :
   rw [rows_ids, List.range_eq_range']
 
 open RefineAscParse in
-/-- **PARTIAL (stage 3): the token protocol of the parser as translated = the hand-written model**, on every `.bad`-free token list
-(`.bad` = the lexer raising, outside the translated code), for every encoding `encF` of the numbers (an opaque payload), success and
-every failure alike: `_read_token` drops the current token like `adv`; `_assert_and_cunsume(BRACKET_RIGHT / BRACKET_LEFT)` are
-`expectRp` / `expectLp`; `_parse_node` is `parseNode` — the same remaining tokens, the same four numbers in a NODE record allocated at
-the end of the heap and attached to `root` by the translated `add_child`, and an error exactly when the model has one (so the model's
-`bad_point_rejected` / `node_error_propagates` hypotheses about a point hold for the generated `_parse_node`).
-
-MISSING for the full statement "generated parser ∘ generated walk = `Asc.convertTokens`": the loops / mutual recursion
-`_parse_subtree` ↔ `_parse_split`, `_parse_tree`, `_parse` as translated against `parseSubtree` / `parseTop`, which needs a heap invariant
-(the heap unfolds to a tree in the sense of `RefineAsc.Agrees` whose `RefineAsc.rows` are the model's rows, with `current` / `root` on
-its rightmost path) — these functions are tied by cross-checked execution only (driver op `gasc`); `walk_ast` itself is proved
-(`generated_from_ast_eq_rows`). -/
-theorem generated_token_protocol_partial (encF : SwcText.Sci → Int) (toks : List Asc.Tok) (nodes : List ASTNode) (root : Int)
+/-- **the token protocol of the parser as translated = the hand-written model** (the leaf level of `generated_convert_eq_model`), on every
+`.bad`-free token list (`.bad` = the lexer raising, outside the translated code), for every encoding `encF` of the numbers (an opaque
+payload), success and every failure alike: `_read_token` drops the current token like `adv`; `_assert_and_cunsume(BRACKET_RIGHT /
+BRACKET_LEFT)` are `expectRp` / `expectLp`; `_parse_node` is `parseNode` — the same remaining tokens, the same four numbers in a NODE
+record allocated at the end of the heap and attached to `root` by the translated `add_child`, and an error exactly when the model has
+one.  (`_parse_color` / `_parse_comment` / `_skip_comments`: `RefineAscLoop.parse_color_refines`, `parse_comment_refines`,
+`RefineAscTop.skip_comments_sim`; the loops and the mutual recursion: `RefineAscLoop.loop_sim`, `RefineAscTop.top_sim`.) -/
+theorem generated_token_protocol (encF : SwcText.Sci → Int) (toks : List Asc.Tok) (nodes : List ASTNode) (root : Int)
     (h : NoBad toks) :
     (parser_read_token (st encF toks nodes) = some (st encF toks.tail nodes, ()) ∧ (∀ t, toks ≠ [] → Asc.adv (t :: toks) = .ok toks)) ∧
     (parser_assert_and_cunsume (st encF toks nodes) 2 =
@@ -65,23 +62,154 @@ theorem generated_token_protocol_partial (encF : SwcText.Sci → Int) (toks : Li
     cases u <;> simp_all [Asc.adv]
 
 
+/-- **the model never runs out of fuel**: `Asc.convertTokens` (fuel `2·#tokens + 4`) and `convertWith N` for every `N ≥ 2·#tokens + 2`
+never return `Err.fuel` on a token list without a lexer failure (with the former fuel `#tokens + 2` the model did, e.g. on
+`( (Axon) ( | ( | ( | ( | ( | ( |` — found by this proof; both fuels reject that input) -/
+theorem model_fuel_suffices (toks : List Asc.Tok) (hnb : RefineAscParse.NoBad toks) :
+    Asc.convertTokens toks ≠ .error .fuel ∧ ∀ N, 2 * toks.length + 2 ≤ N → convertWith N toks ≠ .error .fuel := by
+  refine ⟨?_, fun N hN => RefineAscFuel.convertWith_nofuel N toks hnb hN⟩
+  cases toks with
+  | nil => exact RefineAscFuel.convertWith_nofuel 4 [] hnb (by simp)
+  | cons x t =>
+    rw [convertTokens_eq _ (by simpa using RefineAscLoop.noBad_head hnb)]
+    exact RefineAscFuel.convertWith_nofuel _ _ hnb (by omega)
+
 open RefineAscParse RefineAscHeap RefineAscTop in
 /-- **generated parser ∘ generated walk = the model, explicit fuels** (`C15.convertWith N` is `Asc.convertTokens` with the fuel `N` of
-its loops made explicit; `convertTokens toks = convertWith (toks.length + 2) toks`): for EVERY token list without a lexer failure
+its loops made explicit; `convertTokens toks = convertWith (2·#tokens + 4) toks`): for EVERY token list without a lexer failure
 (`.bad` = `float()` raising inside the lexer, which is not part of the translated code), every encoding `encF` of the numbers (an opaque
-payload), every model fuel `N` with which the model does not run out of fuel, every fuel `G ≥ 2 N` of the translated
-`Parser._parse` (loops and the `_parse_subtree` ↔ `_parse_split` recursion) and every fuel `F ≥ 2·#heap` of the translated walk:
-`Parser(...)` (`next_token = None; _read_token()`), `_parse()`, `from_ast(ast)` AS TRANSLATED FROM THE SOURCE return exactly the model's
-table — the number of rows, ids 0 … m−1, the type of the tree's label, the four numbers of every point, the parents — or raise exactly
-when the model has an error. -/
-theorem generated_convert_eq_model_fuel (encF : SwcText.Sci → Int) (toks : List Asc.Tok) (hnb : NoBad toks) (N G : Nat) (hG : 2 * N ≤ G)
-    (hne : convertWith N toks ≠ .error .fuel) :
+payload), every model fuel `N ≥ 2·#tokens + 2`, every fuel `G ≥ 2 N` of the translated `Parser._parse` (its loops and the
+`_parse_subtree` ↔ `_parse_split` recursion) and every fuel `F ≥ 2·#heap` of the translated walk: `Parser(...)` (`next_token = None;
+_read_token()`), `_parse()`, `from_ast(ast)` AS TRANSLATED FROM THE SOURCE return exactly the model's table — the number of rows, ids
+0 … m−1, the type of the tree's label, the four numbers of every point, the parents — or raise exactly when the model has an error. -/
+theorem generated_convert_eq_model_fuel (encF : SwcText.Sci → Int) (toks : List Asc.Tok) (hnb : NoBad toks) (N G : Nat)
+    (hN : 2 * toks.length + 2 ≤ N) (hG : 2 * N ≤ G) :
     parser_read_token { lexer := toks.map (enc encF), next_token := none, nodes := [] } = some (st encF toks [], ()) ∧
     match convertWith N toks with
     | .error _ => parser_parse G (st encF toks []) = none
     | .ok rows => ∃ p, parser_parse G (st encF toks []) = some (p, 0) ∧
         ∀ F, 2 * p.nodes.length ≤ F → from_ast F p.nodes 0 = some ((rows.length : Int), colsOf (encRows encF 0 rows)) :=
-  ⟨init_st toks, convert_refines N G toks hnb hG hne⟩
+  ⟨init_st toks, convert_refines N G toks hnb hG (RefineAscFuel.convertWith_nofuel N toks hnb hN)⟩
+
+open RefineAscParse RefineAscHeap RefineAscTop in
+/-- **THE GENERATED CONVERSION IS THE MODEL**: `AlgoRun.ascConvert` — `Parser(...)`, `Parser._parse()` and `NeurolucidaAscToSwc.from_ast`
+AS TRANSLATED FROM THE CURRENT SOURCE, composed as in `from_stream`, with the fuels the driver runs them with — applied to the encoding
+of ANY token list without a lexer failure returns exactly the rows of the hand-written model `Asc.convertTokens` (their number, ids
+0 … m−1, types, the four numbers of every point, parents), and raises (`none`) exactly when the model has an error.  No bound on the
+length, the nesting depth or the number of alternatives; fuel sufficiency is part of the statement. -/
+theorem generated_convert_eq_model (encF : SwcText.Sci → Int) (toks : List Asc.Tok) (hnb : NoBad toks) :
+    AlgoRun.ascConvert (toks.map (enc encF)) =
+      match Asc.convertTokens toks with
+      | .ok rows => some ((rows.length : Int), colsOf (encRows encF 0 rows))
+      | .error _ => none := by
+  have hconv : Asc.convertTokens toks = convertWith (2 * toks.length + 4) toks := by
+    cases toks with
+    | nil => rfl
+    | cons x t => exact convertTokens_eq _ (by simpa using RefineAscLoop.noBad_head hnb)
+  obtain ⟨h0, h1⟩ := generated_convert_eq_model_fuel encF toks hnb (2 * toks.length + 4) (4 * toks.length + 8) (by omega) (by omega)
+  rw [hconv]
+  unfold AlgoRun.ascConvert
+  rw [h0]
+  simp only [AlgoRun.ascParseFuel, List.length_map]
+  revert h1
+  cases convertWith (2 * toks.length + 4) toks with
+  | error e => intro h1; simp only [h1]
+  | ok rows =>
+    intro h1
+    obtain ⟨p, hp, hw⟩ := h1
+    simp only [hp]
+    exact hw _ (by simp [AlgoRun.ascWalkFuel])
+
+mutual
+theorem noBad_branchToks : ∀ b : Branch, RefineAscParse.NoBad (branchToks b)
+  | .leaf pts => by
+    intro x hx
+    simp only [branchToks, List.mem_flatMap, ptToks] at hx
+    obtain ⟨p, _, hp⟩ := hx
+    simp at hp
+    rcases hp with rfl | rfl | rfl | rfl | rfl | rfl <;> simp
+  | .fork p pts alts => by
+    have ih := noBad_altsToks alts
+    intro x hx
+    simp only [branchToks, List.mem_append, List.mem_flatMap, ptToks, List.mem_singleton] at hx
+    rcases hx with (((hx | ⟨q, _, hx⟩) | rfl) | hx) | rfl
+    · simp at hx; rcases hx with rfl | rfl | rfl | rfl | rfl | rfl <;> simp
+    · simp at hx; rcases hx with rfl | rfl | rfl | rfl | rfl | rfl <;> simp
+    · simp
+    · exact ih x hx
+    · simp
+theorem noBad_altsToks : ∀ alts : List Branch, RefineAscParse.NoBad (altsToks alts)
+  | [] => by intro x hx; simp [altsToks] at hx
+  | [a] => by simpa [altsToks] using noBad_branchToks a
+  | a :: b :: rest => by
+    have h1 := noBad_branchToks a
+    have h2 := noBad_altsToks (b :: rest)
+    intro x hx
+    simp only [altsToks, List.mem_append, List.mem_singleton] at hx
+    rcases hx with (hx | rfl) | hx
+    · exact h1 x hx
+    · simp
+    · exact h2 x hx
+end
+
+theorem noBad_docToks (label : SwcText.Str) (b : Branch) : RefineAscParse.NoBad (docToks label b) := by
+  intro x hx
+  simp only [docToks, List.mem_append, List.mem_cons, List.mem_singleton, List.not_mem_nil, or_false] at hx
+  rcases hx with ((rfl | rfl | rfl | rfl) | hx) | rfl
+  · simp
+  · simp
+  · simp
+  · simp
+  · exact noBad_branchToks b x hx
+  · simp
+
+open RefineAscParse RefineAscHeap in
+/-- **`convert_faithful` for the generated code**: the token stream of EVERY well-formed single-tree document `( (label) <branch> )` (any
+nesting depth, any branch length, any number of alternatives, empty alternatives included) is converted by the parser and the walk AS
+TRANSLATED to exactly the table the property describes (`rowsOf`: one row per point in document order, typed by the label, the parent
+= the preceding point of the branch / the last point before the enclosing split) -/
+theorem generated_convert_faithful (encF : SwcText.Sci → Int) (label : SwcText.Str) (b : Branch)
+    (hl : Asc.upper label = "AXON".toList ∨ Asc.upper label = "DENDRITE".toList) (hb : NonEmpty b) :
+    AlgoRun.ascConvert ((docToks label b).map (enc encF)) =
+      some ((b.count : Int), colsOf (encRows encF 0 (rowsOf (labelType label) b (-1) 0))) := by
+  rw [generated_convert_eq_model encF _ (noBad_docToks label b), convert_faithful label b hl hb]
+  simp only [rows_count]
+
+open RefineAscParse in
+/-- **`truncation_rejected` for the generated code**: every proper prefix of the token stream of a well-formed single-tree document makes
+the parser AS TRANSLATED raise — nothing is converted in part -/
+theorem generated_truncation_rejected (encF : SwcText.Sci → Int) (label : SwcText.Str) (b : Branch) (k : Nat)
+    (hl : Asc.upper label = "AXON".toList ∨ Asc.upper label = "DENDRITE".toList) (hb : NonEmpty b)
+    (hk : k < (docToks label b).length) :
+    AlgoRun.ascConvert (((docToks label b).take k).map (enc encF)) = none := by
+  have hnb : NoBad ((docToks label b).take k) := fun x hx => noBad_docToks label b x (List.mem_of_mem_take hx)
+  rw [generated_convert_eq_model encF _ hnb]
+  have hd : docToks label b = [Asc.Tok.lp, Asc.Tok.lp, Asc.Tok.literal label, Asc.Tok.rp] ++ (branchToks b ++ [Asc.Tok.rp]) := by
+    simp [docToks]
+  obtain ⟨er, he⟩ := truncation_rejected label b k hl hb (by rw [← hd]; exact hk)
+  rw [hd, he]
+
+open RefineAscParse in
+/-- **`bad_point_rejected` for the generated code**: `_parse_node` AS TRANSLATED raises on a point with three numbers, with five numbers,
+with a word inside, and on a point cut before its closing bracket (whatever follows, on any heap); by `generated_convert_eq_model` every
+rejection of the model is a rejection of the generated conversion -/
+theorem generated_bad_point_rejected (encF : SwcText.Sci → Int) (a b c d e : SwcText.Sci) (w : SwcText.Str) (t : List Asc.Tok) (hnb : NoBad t)
+    (nodes : List ASTNode) (root : Int) :
+    parser_parse_node (st encF (.float a :: .float b :: .float c :: .rp :: t) nodes) root = none ∧
+    parser_parse_node (st encF (.float a :: .float b :: .float c :: .float d :: .float e :: t) nodes) root = none ∧
+    parser_parse_node (st encF (.float a :: .literal w :: t) nodes) root = none ∧
+    parser_parse_node (st encF (.float a :: .float b :: .float c :: .float d :: []) nodes) root = none := by
+  obtain ⟨⟨e1, h1⟩, ⟨e2, h2⟩, ⟨e3, h3⟩, ⟨e4, h4⟩⟩ := bad_point_rejected a b c d e w t
+  have nb : ∀ (pre : List Asc.Tok), (∀ x ∈ pre, x ≠ Asc.Tok.bad) → NoBad (pre ++ t) := by
+    intro pre hp x hx
+    rcases List.mem_append.mp hx with h | h
+    · exact hp x h
+    · exact hnb x h
+  refine ⟨?_, ?_, ?_, ?_⟩
+  · rw [parse_node_refines encF (.float a :: .float b :: .float c :: .rp :: t) nodes root (nb [.float a, .float b, .float c, .rp] (by simp)), h1]
+  · rw [parse_node_refines encF (.float a :: .float b :: .float c :: .float d :: .float e :: t) nodes root (nb [.float a, .float b, .float c, .float d, .float e] (by simp)), h2]
+  · rw [parse_node_refines encF (.float a :: .literal w :: t) nodes root (nb [.float a, .literal w] (by simp)), h3]
+  · rw [parse_node_refines encF _ nodes root (by intro x hx; simp at hx; rcases hx with rfl | rfl | rfl | rfl <;> simp), h4]
 
 /-- non-vacuity (kernel-evaluated): the generated parser followed by the generated walk on the token stream of
 `( (Axon) (0 1 2 3) ( (4 5 6 7) | (8 9 10 11) ) )` gives three rows with parents −1, 0, 0, typed axon; the stream cut before its last
@@ -93,5 +221,27 @@ def exToks : List Token :=
 example : (AlgoRun.ascConvert exToks).map (fun r => (r.1, r.2.1, r.2.2.1, r.2.2.2.1, r.2.2.2.2.2.2.2)) =
     some (3, [0, 1, 2], [2, 2, 2], [.flt 0, .flt 4, .flt 8], [-1, 0, 0]) := by decide +kernel
 example : (AlgoRun.ascConvert exToks.dropLast).isNone := by decide +kernel
+
+/-- non-vacuity of `generated_convert_eq_model` / `generated_convert_faithful` / `generated_truncation_rejected` (kernel-evaluated): the
+same document as a model token list; its encoding is `exToks`; it has no lexer failure; the model converts it to three rows (parents −1,
+0, 0), so the theorem applies and gives the result computed above; the hypotheses of the transported theorems are satisfiable -/
+def exSci (n : Nat) : SwcText.Sci := ⟨false, n, 0⟩
+def exEnc : SwcText.Sci → Int := fun v => (v.2 : Nat)
+def exModelToks : List Asc.Tok :=
+  [.lp, .lp, .literal "Axon".toList, .rp, .lp, .float (exSci 0), .float (exSci 1), .float (exSci 2), .float (exSci 3), .rp,
+   .lp, .lp, .float (exSci 4), .float (exSci 5), .float (exSci 6), .float (exSci 7), .rp, .bar, .lp, .float (exSci 8),
+   .float (exSci 9), .float (exSci 10), .float (exSci 11), .rp, .rp, .rp]
+example : exModelToks.map (RefineAscParse.enc exEnc) = exToks := by decide +kernel
+example : RefineAscParse.NoBad exModelToks := by unfold RefineAscParse.NoBad; decide +kernel
+example : (Asc.convertTokens exModelToks).toOption.map (fun rows => rows.map (·.pid)) = some [-1, 0, 0] := by decide +kernel
+example : AlgoRun.ascConvert (exModelToks.map (RefineAscParse.enc exEnc)) =
+    match Asc.convertTokens exModelToks with
+    | .ok rows => some ((rows.length : Int), colsOf (RefineAscHeap.encRows exEnc 0 rows))
+    | .error _ => none :=
+  generated_convert_eq_model exEnc exModelToks (by unfold RefineAscParse.NoBad; decide +kernel)
+example : exModelToks = docToks "Axon".toList (.fork ⟨exSci 0, exSci 1, exSci 2, exSci 3⟩ []
+    [.leaf [⟨exSci 4, exSci 5, exSci 6, exSci 7⟩], .leaf [⟨exSci 8, exSci 9, exSci 10, exSci 11⟩]]) := by decide +kernel
+example : Asc.upper "Axon".toList = "AXON".toList ∧
+    NonEmpty (.fork ⟨exSci 0, exSci 1, exSci 2, exSci 3⟩ [] [.leaf [⟨exSci 4, exSci 5, exSci 6, exSci 7⟩]]) := ⟨by decide +kernel, trivial⟩
 
 end C15
